@@ -22,6 +22,14 @@ import RedisVerif.Model.Apply
                                                     every key after recover + apply_recovered_state on a
                                                     fresh node (sorted by key), | err <class>
     APPLYWAL                                      → same after recover_with_wal
+    APPLY2                                        → same for the production start-up sequence: recover + apply, then the
+                                                    WAL entries through a second apply_recovered_state(None, ..)
+    RECP                                          → as REC, through recover_with_progress
+    NEEDSREC                                      → needs_recovery(): 0|1
+    MLOAD                                         → the manifest load_or_create returns from the store
+    MMADD <id> <count> <size> <min> <max>         → ManifestManager::add_segment / update on the store: man … | err
+    MSEGAFTER <ts>                                → Manifest::segments_after ids, total_size_bytes, total_record_count
+    SHOULDCHK <min_segments> <interval_ms> <now>  → CheckpointManager::should_checkpoint: 0|1
 -/
 namespace RedisVerif.Driver.C11
 open RedisVerif RedisVerif.Driver RedisVerif.Stream
@@ -127,6 +135,47 @@ def step (s : St) (line : String) : St × String :=
     | some id => ({ s with store := NMap.insert (segName id) .torn s.store }, "ok")
     | none => (s, "bad-op")
   | ["REC"] => (s, showRec (recover s.store s.rid))
+  | ["RECP"] => (s, showRec (recover s.store s.rid))     -- recover_with_progress: the same function
+  | ["NEEDSREC"] => (s, b01 (NMap.get s.store manifestName).isSome)
+  | ["MLOAD"] =>
+    (s, match NMap.get s.store manifestName with
+        | some (.manifest m) => showMan m
+        | some _ => "err"
+        | none => showMan (Manifest.new s.rid))
+  | ["MMADD", a, b, c, d, e] =>
+    match a.toNat?, b.toNat?, c.toNat?, d.toNat?, e.toNat? with
+    | some id, some count, some size, some lo, some hi =>
+      let r := managerAddSegment (fun _ => .ok) (World.init s.store) { id := id, count := count, size := size, minTs := lo, maxTs := hi }
+      match r.2 with
+      | some m => ({ s with store := r.1.store, man := m }, showMan m)
+      | none => ({ s with store := r.1.store }, "err")
+    | _, _, _, _, _ => (s, "bad-op")
+  | ["MSEGAFTER", a] =>
+    match a.toNat? with
+    | some ts =>
+      (s, "[" ++ ",".intercalate ((s.man.segments.filter (fun sg => sg.maxTs ≥ ts)).map (fun sg => toString sg.id)) ++ "]"
+          ++ s!" bytes={s.man.segments.foldl (fun a sg => a + sg.size) 0} records={s.man.segments.foldl (fun a sg => a + sg.count) 0}")
+    | none => (s, "bad-op")
+  | ["SHOULDCHK", a, b, c] =>
+    match a.toNat?, b.toNat?, c.toNat? with
+    | some minSegs, some iv, some now =>
+      (s, match NMap.get s.store manifestName with
+          | some (.manifest m) => b01 (shouldCheckpoint m minSegs iv now)
+          | some _ => "err"
+          | none => b01 (shouldCheckpoint (Manifest.new 0) minSegs iv now))
+    | _, _, _ => (s, "bad-op")
+  | ["APPLY2"] =>
+    -- the production start-up sequence (server_persistent.rs): StreamingIntegration::recover, then
+    -- the WAL entries through a SECOND apply_recovered_state(None, deltas)
+    (s, match recover s.store s.rid with
+        | .error e => showRec (.error e)
+        | .ok r =>
+          let route : Nat → Nat := fun k => k % 16
+          let n1 := applyRecoveredState route (Node.fresh s.rid false) r.chk r.deltas
+          let n2 := applyRecoveredState route n1 none (s.wal.map (·.2))
+          let keys := (foldState (r.updates ++ s.wal.map (·.2))).map (·.1)
+          let vs : List Delta := keys.filterMap (fun k => (n2.value route k).map (fun v => (k, v)))
+          s!"applied {showDeltas vs}")
   | ["RECWAL"] => (s, showRec (recoverWithWal s.store s.rid s.wal))
   | ["APPLY"] => (s, showApplied s.rid (recover s.store s.rid))
   | ["APPLYWAL"] => (s, showApplied s.rid (recoverWithWal s.store s.rid s.wal))
